@@ -671,7 +671,8 @@ SCHEMES.update({
     'ecdh': Spec('C06', 5, dict(qa='ec', qb='ec'), o_ecdh, opts=lambda rng: dict(klen=rng.choice([16, 32, 33, 64, 1]))),
     'ecmqv': Spec('C06', 5, dict(qa1='ec', qa2='ec', qb1='ec', qb2='ec'), o_ecmqv,
                   opts=lambda rng: dict(klen=rng.choice([16, 32, 48]))),
-    'ecies': Spec('C06', 5, dict(pk='ec', R='ec', ct='bytes'), o_ecies, weight=12, extra_faults=[('forge', 'v_forgeinf')]),
+    'ecies': Spec('C06', 5, dict(pk='ec', R='ec', ct='bytes'), o_ecies, weight=12, extra_faults=[('forge', 'v_forgeinf')],
+                  opts=lambda rng: dict(dup=rng.below(2))),      # dup = 1: decryption in place
     'phpe': Spec('C06', 6, dict(), o_phpe, ph=True, opts=lambda rng: dict(k=rng.randint(1, 4), cls=rng.choice([0, 0, 1, 2]), dup=rng.below(2)),
                  extra_faults=[('c0', 'drop'), ('c1', 'dup'), ('c0', 'dup'), ('c2', 'drop'), ('c1', 'drop')]),
     'sss': Spec('C06', 2, dict(sh0='bn', sh1='bn', sh2='bn', sh3='bn'), o_sss,
